@@ -299,8 +299,10 @@ def check_fix(c, col):
     steps = 12
     model = AM.DenovoMCMC(ploidy=ploidy, n_alleles=list(n_alleles), inbreeding=F, steps=steps, chains=1, fix_homozygous=thr,
                           random_seed=c["seed"], temperatures=tuple(c["temps"]))
+    # public API: fit() with one chain (the class canonicalises the row order of every step)
     with monitors.patched((AM, "_denovo_assembler", wrapper)):
-        gen_trace, llk_trace = model._mcmc(reads if len(reads) else np.full((1, n_base, 4), np.nan), counts if len(reads) else None)
+        trace = model.fit(reads, read_counts=counts if len(reads) else None)
+    gen_trace = np.asarray(trace.genotypes)[0]
     col.count("fits_checked")
     het = [j for j in range(n_base) if j not in fixed_allele]
     if fixed_allele:
@@ -331,10 +333,12 @@ def check_fix(c, col):
         if seen["n_alleles"] != [int(n_alleles[j]) for j in het]:
             viol("sampler-received-wrong-allele-counts", "n_alleles passed %s want %s" % (seen["n_alleles"], [int(n_alleles[j]) for j in het]))
         sampled = seen["genotypes"][0]  # (steps, ploidy, n_het)
-        for k, j in enumerate(het):
-            col.count("sampled_columns_checked")
-            if not np.array_equal(gen_trace[:, :, j], sampled[:, :, k]):
-                viol("sampled-column-misplaced", "trace column %d is not the sampler's output column %d" % (j, k))
+        col.count("sampled_columns_checked", len(het))
+        for st in range(steps):
+            a = sorted(map(tuple, gen_trace[st][:, het].tolist()))
+            b = sorted(map(tuple, sampled[st].tolist()))
+            if a != b:
+                viol("sampled-column-misplaced", "step %d: variable-site columns %s of the trace hold %s, the sampler produced %s" % (st, het, a, b))
                 break
     else:
         if seen.get("calls", 0) != 0:
